@@ -27,4 +27,4 @@ Deliverables, all in {out}/ :
   - patch.diff : `git -C {wt} diff` of your change (source files only, no new tests, no demo inside the repo)
   - demo.py : the demonstration described above
   - notes.md : which property clause it breaks, what exactly is needed for it to manifest, why the existing tests do not notice, the commands you ran and their outcome (demo on clean tree, demo on modified tree, baseline.sh result line).
-Verify yourself: `git -C {wt} stash` / `stash pop` (or apply/reverse the patch) to run the demo on both trees. Leave the worktree with your change applied when you finish. Keep the change minimal (a few lines). Report back a 5-line summary.""")
+Verify yourself by reversing/applying the patch (`git -C {wt} diff > {out}/patch.diff; git -C {wt} apply -R {out}/patch.diff; ...; git -C {wt} apply {out}/patch.diff`) to run the demo on both trees -- do NOT use `git stash` (the stash is shared by all worktrees of the repository and other agents use it concurrently). Leave the worktree with your change applied when you finish. Keep the change minimal (a few lines). Report back a 5-line summary.""")
